@@ -140,7 +140,7 @@ def _assigned_names(stmts) -> set:
 class Walker:
     def __init__(self, prog: Program, ctx: Optional[str] = None, inline: str = "light", max_depth: int = 8,
                  param_types: Optional[Dict[str, str]] = None, max_states: int = 4000,
-                 no_inline: Tuple[str, ...] = (), force_inline: Tuple[str, ...] = (), light_for: Tuple[str, ...] = ()):
+                 no_inline: Tuple[str, ...] = (), force_inline: Tuple[str, ...] = (), opaque=None):
         self.prog = prog
         self.ctx = prog.cls(ctx) if ctx else None
         self.inline = inline
@@ -149,7 +149,7 @@ class Walker:
         self.max_states = max_states
         self.no_inline = set(no_inline)
         self.force_inline = set(force_inline)
-        self.light_for = set(light_for)  # in deep mode: these keep the light policy (inlined only when a single return)
+        self.opaque = opaque  # in deep mode: qualified names that are never looked through (the anchor table)
         self._site = 0
         self._simple_cache: Dict[int, bool] = {}
         self._writes_cache: Dict[Tuple[str, str], set] = {}
@@ -494,6 +494,9 @@ class Walker:
     def _havoc(self, st: State, body, lid: str, tag: str):
         for name in sorted(_assigned_names(body)):
             if name in st.env:
+                if tag == "" and body:
+                    # what a loop-carried variable holds when the loop is entered (its value in the first iteration)
+                    self.emit(st, "loopinit", body[0], name=name, lid=lid, value=st.env[name])
                 st.env[name] = ("hv", name, lid + tag)
         # fields and containers written in the body (syntactically or through callees)
         keys = self._body_writes(body, st)
@@ -775,23 +778,39 @@ class Walker:
             return [(s, not t) for s, t in self.split(test.operand, st)]
         out = []
         for s, v in self.ev(test, st):
-            v = self.decide(v, s)
-            if is_const(v):
-                out.append((s, bool(v[1])))
-                continue
-            known = None
-            for c in s.conds:
-                if c.atom == v and not _loop_stale(c, s):
-                    known = c.truth
-            if known is not None:
-                out.append((s, known))
-                continue
-            s_t = s.copy()
-            s_t.conds.append(Cond(v, True, test, s.frame.func, s.loops))
-            s.conds.append(Cond(v, False, test, s.frame.func, s.loops))
-            out.append((s_t, True))
-            out.append((s, False))
+            out.extend(self.split_value(v, s, test))
         return out
+
+    def split_value(self, v, s: State, test) -> List[Tuple[State, bool]]:
+        """branch on an already evaluated value; a stored boolean combination (x = a or b; if x:) is decided operand by operand,
+        exactly like the same combination written in the test"""
+        if v[0] in ("or", "and") and len(v) == 2 and isinstance(test, ast.Name):
+            is_and = v[0] == "and"
+            results = []
+            pending = [s]
+            for x in v[1]:
+                nxt = []
+                for s1 in pending:
+                    for s2, truth in self.split_value(x, s1, test):
+                        if truth == is_and:
+                            nxt.append(s2)
+                        else:
+                            results.append((s2, truth))
+                pending = nxt
+            results.extend((s1, is_and) for s1 in pending)
+            return results
+        if v[0] == "un" and v[1] == "not" and isinstance(test, ast.Name):
+            return [(s2, not t) for s2, t in self.split_value(v[2], s, test)]
+        v = self.decide(v, s)
+        if is_const(v):
+            return [(s, bool(v[1]))]
+        for c in s.conds:
+            if c.atom == v and not _loop_stale(c, s):
+                return [(s, c.truth)]
+        s_t = s.copy()
+        s_t.conds.append(Cond(v, True, test, s.frame.func, s.loops))
+        s.conds.append(Cond(v, False, test, s.frame.func, s.loops))
+        return [(s_t, True), (s, False)]
 
     def decide(self, v, st: State):
         """fold what the tags decide: isinstance on file objects, None tests on known values"""
@@ -977,7 +996,8 @@ class Walker:
         return [(s, ("slc", v[0], v[1], v[2])) for s, v in self.ev_seq(parts, st)]
 
     def index_value(self, cont, idx, st: State):
-        if cont[0] in ("tup", "lst") and is_const(idx) and isinstance(idx[1], int) and -len(cont[1]) <= idx[1] < len(cont[1]):
+        if cont[0] in ("tup", "lst") and is_const(idx) and isinstance(idx[1], int) and -len(cont[1]) <= idx[1] < len(cont[1]) \
+                and (cont[0] == "tup" or self.epoch(st, cont) == 0):
             return cont[1][idx[1]]
         if cont[0] == "unpall" and is_const(idx) and isinstance(idx[1], int):
             return ("unp", cont[1], idx[1], cont[2])
@@ -1270,7 +1290,7 @@ class Walker:
         if init is None or cls.is_subclass_of("Exception"):
             return [(st, obj)]
         if self.inline == "deep" and len(st.stack) < self.max_depth and init.qualname not in self.no_inline and "__init__" not in self.no_inline \
-                and "__init__" not in self.light_for:
+                and not (self.opaque is not None and init.qualname in self.opaque):
             res = self._inline(init, cls, obj, args, kwargs, st, node, "__init__")
             return [(s, obj) for s, _ in res]
         bound = self._bind_args(init, args, kwargs, skip_self=True)
@@ -1320,8 +1340,8 @@ class Walker:
             want = False
         elif f.qualname in self.force_inline or f.src_name in self.force_inline:
             want = rec < 2
-        elif self.inline == "deep" and (f.src_name in self.light_for or f.qualname in self.light_for):
-            want = (force or self.is_simple(f)) and rec < 1
+        elif self.inline == "deep" and self.opaque is not None and f.qualname in self.opaque:
+            want = force and rec < 1
         elif self.inline == "deep":
             want = rec < 2
         elif self.inline == "light":
